@@ -659,6 +659,91 @@ def z3_fields(prog, ctx, wc, trees):
     return n
 
 
+def z4_geneinfo(prog, ctx):
+    """GeneInfo.deserialize derives the annotation tables from the database; every derivation that consults a serialised field
+    must run after that field has been restored from the stream (or receive it through the constructor)."""
+    GI = "src/gene_info.py"
+    cls = prog.cls(GI, "GeneInfo")
+    meths = prog.methods_of(cls, inherited=False)
+    ser, des, init = meths["serialize"], meths["deserialize"], meths["__init__"]
+    serialised = set()
+    for c in walk_no_nested(ser):
+        if isinstance(c, ast.Call) and (call_name(c) or "").startswith("write_") and c.args:
+            for x in ast.walk(c.args[0]):
+                if isinstance(x, ast.Attribute) and isinstance(x.value, ast.Name) and x.value.id == "self":
+                    serialised.add(x.attr)
+    reads_cache = {}
+
+    def reads(name, stack=()):
+        if name in reads_cache:
+            return reads_cache[name]
+        if name not in meths or name in stack:
+            return set()
+        out = set()
+        f = meths[name]
+        selfname = f.args.args[0].arg if f.args.args else "self"
+        for x in walk_no_nested(f):
+            if isinstance(x, ast.Attribute) and isinstance(x.value, ast.Name) and x.value.id == selfname and isinstance(x.ctx, ast.Load):
+                if x.attr in serialised:
+                    out.add(x.attr)
+                elif x.attr in meths and isinstance(getattr(x, "_parent", None), ast.Call) and x._parent.func is x:
+                    out |= reads(x.attr, stack + (name,))
+        reads_cache[name] = out
+        return out
+    n = 0
+    # constructor: which serialised fields it takes as parameters, and which derivations inside it consult them
+    param_of = {}
+    for st in walk_no_nested(init):
+        if isinstance(st, ast.Assign) and isinstance(st.value, ast.Name) and isinstance(st.targets[0], ast.Attribute) \
+                and dotted(st.targets[0]) == "self." + st.targets[0].attr and st.targets[0].attr in serialised:
+            param_of[st.targets[0].attr] = st.value.id
+    init_reads = set()
+    for x in walk_no_nested(init):
+        if isinstance(x, ast.Call) and isinstance(x.func, ast.Attribute) and dotted(x.func.value) == "self" and x.func.attr in meths:
+            init_reads |= reads(x.func.attr)
+    iparams = [a.arg for a in init.args.args][1:]
+    obj = None
+    restored = set()
+    stmts = sorted([x for x in ast.walk(des) if isinstance(x, ast.stmt) and x is not des], key=lambda x: (x.lineno, x.col_offset))
+    for st in stmts:
+        if isinstance(st, ast.Assign) and isinstance(st.targets[0], ast.Name) and isinstance(st.value, ast.Call):
+            cn = call_name(st.value) or ""
+            if cn.endswith("__new__"):
+                obj = st.targets[0].id
+                restored = set()
+            elif cn in ("cls", "GeneInfo"):
+                obj = st.targets[0].id
+                n += 1
+                bound = set(iparams[:len(st.value.args)]) | {k.arg for k in st.value.keywords}
+                missing = [f for f, pn in sorted(param_of.items()) if pn not in bound and f in init_reads]
+                if missing:
+                    ctx.fail("Z4", st, "GeneInfo.deserialize", src(st)[:90], "the object is rebuilt through the constructor without `%s`: the "
+                             "constructor derives tables (%s) from self.%s, so they are computed with the default instead of the value "
+                             "stored in the stream - assigning %s afterwards does not recompute them"
+                             % (param_of[missing[0]], ", ".join(sorted(m_ for m_ in meths if missing[0] in reads(m_))[:3]), missing[0], missing[0]))
+                else:
+                    ctx.ok("Z4", "%s:%d" % (GI, st.lineno), "constructor call passes every serialised field its derivations consult")
+                restored = set(param_of)        # set by the constructor
+        if obj is None:
+            continue
+        for c in [x for x in ast.walk(st) if isinstance(x, ast.Call) and isinstance(x.func, ast.Attribute) and dotted(x.func.value) == obj
+                  and x.func.attr in meths] if not isinstance(st, (ast.If, ast.For, ast.While, ast.With, ast.Try)) else []:
+            n += 1
+            need = reads(c.func.attr) - restored
+            if need:
+                ctx.fail("Z4", c, "GeneInfo.deserialize", src(c)[:80], "%s.%s() consults self.%s, which has not been restored from the "
+                         "stream at this point of deserialize" % (obj, c.func.attr, sorted(need)[0]))
+            else:
+                ctx.ok("Z4", "%s:%d" % (GI, c.lineno), "%s() runs after the serialised fields it consults (%s) are restored"
+                       % (c.func.attr, sorted(reads(c.func.attr)) or "none"), nontrivial=bool(reads(c.func.attr)))
+        if isinstance(st, ast.Assign):
+            for t in st.targets:
+                if isinstance(t, ast.Attribute) and dotted(t.value) == obj:
+                    restored.add(t.attr)
+    ctx.floor("Z4", "derivation calls in GeneInfo.deserialize", n, 1)
+    ctx.extra["geneinfo_serialised_fields"] = sorted(serialised)
+
+
 def run(prog, ctx):
     ctx.rule("Z1", "writer and reader of every codec pair reduce to the same wire-type tree, position by position, and "
                    "(where derivable) the same field name; the abridged reader consumes exactly ReadAssignment's tree; "
@@ -674,6 +759,9 @@ def run(prog, ctx):
     n_pk = z1_pickle_state(prog, ctx)
     pairs = z2_codecs(prog, ctx, wc)
     z3_fields(prog, ctx, wc, trees)
+    ctx.rule("Z4", "GeneInfo.deserialize: every derivation (obj.set_*() or the constructor) that consults a serialised field "
+                   "(transitively through self-calls) runs after that field is restored / receives it as constructor argument")
+    z4_geneinfo(prog, ctx)
     ctx.floor("Z1", "object codec pairs", n_obj, 6)
     ctx.floor("Z2", "write_/read_ codec pairs", pairs, 9)
     ctx.floor("Z1", "ReadAssignment wire positions", len(trees["ReadAssignment"]), 20)
